@@ -201,6 +201,8 @@ def explore(make, bound, check, fault=None, limit=None, stats=None):
         world = make()
         x = Execution(world.actors, prefix, fault, world.after_step)
         world.execution = x
+        x.on_lock = getattr(world, 'on_lock', None)
+        x.on_unlock = getattr(world, 'on_unlock', None)
         x.run()
         n += 1
         check(x, world)
@@ -223,7 +225,7 @@ def cur():
     return Execution.current
 
 
-PATH_POINTS = {'isfile', 'isdir', 'exists', 'lexists', 'islink', 'getsize', 'getmtime'}
+PATH_POINTS = {'isfile', 'isdir', 'exists', 'lexists', 'islink', 'getsize', 'getmtime', 'samefile'}
 OS_POINTS = {'makedirs', 'mkdir', 'link', 'unlink', 'remove', 'rename', 'replace', 'chmod', 'symlink', 'rmdir',
              'listdir', 'stat', 'lstat', 'utime', 'readlink', 'scandir', 'open', 'close', 'fsync', 'truncate'}
 DEAD_RESULT = {'isfile': False, 'isdir': False, 'exists': False, 'lexists': False, 'islink': False, 'listdir': []}
@@ -237,7 +239,7 @@ class PathProxy:
 
         def f(*a, **k):
             x = cur()
-            if x is not None and x.point('path.' + n, _d(a)) == 'dead':
+            if x is not None and not _private(a) and x.point('path.' + n, _d(a)) == 'dead':
                 return DEAD_RESULT.get(n)
             return real(*a, **k)
         return f
@@ -254,10 +256,19 @@ class OsProxy:
 
         def f(*a, **k):
             x = cur()
-            if x is not None and x.point('os.' + n, _d(a)) == 'dead':
+            if x is not None and not _private(a) and x.point('os.' + n, _d(a)) == 'dead':
                 return DEAD_RESULT.get(n)
             return real(*a, **k)
         return f
+
+
+def _private(args):
+    x = cur()
+    a = x.me() if x else None
+    if a is None or not getattr(a, 'private', None):
+        return False
+    paths = [p for p in args if isinstance(p, str)]
+    return bool(paths) and all(any(p == pre or p.startswith(pre + os.sep) for pre in a.private) for p in paths)
 
 
 def _d(args):
@@ -346,9 +357,76 @@ def mkdtemp(*args, **kw):
 
 def open_proxy(name, mode='r', *a, **k):
     x = cur()
-    if x is not None and x.me() is not None:
+    if x is not None and x.me() is not None and not _private((name,)):
         if x.point('open', _d((name, mode))) == 'dead':
             return FileProxy(builtins.open(os.devnull, 'rb' if 'b' in mode else 'r') if 'r' in mode and '+' not in mode
                              else builtins.open(os.devnull, mode), 'dead')
         return FileProxy(builtins.open(name, mode, *a, **k), 'f:' + os.path.basename(str(name)))
     return builtins.open(name, mode, *a, **k)
+
+
+# ---------------------------------------------------------------------------- flock model
+def lock_file(fd, exclusive):
+    x = cur()
+    a = x.me() if x else None
+    if a is None or a.killed:
+        return
+    st = os.fstat(fd.fileno())
+    key = (st.st_dev, st.st_ino)
+    mode = 'ex' if exclusive else 'sh'
+    if key in a.locks:
+        raise HarnessError('actor locks the same inode twice')
+    label = os.path.basename(getattr(fd, 'name', '?'))
+    if x.point('flock', '%s %s' % (mode, label), guard=lambda: x.can_lock(a, key, mode)) == 'dead':
+        return
+    x.lock(a, key, mode)
+    cb = getattr(x, 'on_lock', None)
+    if cb: cb(a, getattr(fd, 'name', '?'), mode)
+
+
+def unlock_file(fd):
+    x = cur()
+    a = x.me() if x else None
+    if a is None or a.killed:
+        return
+    st = os.fstat(fd.fileno())
+    key = (st.st_dev, st.st_ino)
+    if x.point('funlock', os.path.basename(getattr(fd, 'name', '?'))) == 'dead':
+        return
+    x.unlock(a, key)
+    cb = getattr(x, 'on_unlock', None)
+    if cb: cb(a, getattr(fd, 'name', '?'))
+
+
+class TmpDir:
+    def __init__(self, dir=None):
+        self.dir = dir
+        self.name = None
+
+    def __enter__(self):
+        x = cur()
+        a = x.me() if x else None
+        if a is not None:
+            if x.point('mkdtemp', os.path.basename(self.dir or '')) == 'dead':
+                self.name = '/nonexistent-dead'
+                return self.name
+        self.name = tempfile.mkdtemp(dir=self.dir)
+        if a is not None:
+            a.private = getattr(a, 'private', []) + [self.name]
+        return self.name
+
+    def __exit__(self, *exc):
+        import shutil
+        x = cur()
+        a = x.me() if x else None
+        if a is not None and x.point('rmtree-tmp', os.path.basename(self.name)) == 'dead':
+            return False
+        shutil.rmtree(self.name, ignore_errors=True)
+        return False
+
+
+class TempfileProxy:
+    TemporaryDirectory = TmpDir
+
+    def __getattr__(self, n):
+        raise HarnessError('unhooked tempfile.%s' % n)
